@@ -1,6 +1,7 @@
 import SaModel.Lemmas.C01ObsR2
 import SaModel.Lemmas.C01ObsRoot
 import SaModel.Props.C01
+import SaModel.Lemmas.C03TypeNew
 /-
 C01 / C03 — the "hidden rows" refinement: the refinement theorems and the end-to-end statements WITHOUT the first clause
 of `Safe` ("no dictionary with non-nullable keys below a nullable struct / fixed-size list").
@@ -26,7 +27,7 @@ The refinement below speaks about OBSERVABLE rows (vocabulary: Lemmas/C01ObsDefs
   R2'  push_interp'        … and `interpDT ext dt n md x = ok lv` for the builder of a field of type dt
   R3'  runRows_interp'     `runRows_interp` without `hsafe`
   C01_build_decode'        `C01_build_decode` without `hsafe`
-  C03_wf'                  `C03_wf` with `hsafe` replaced by `Safe root0 ∨ coveredF` (see the theorem)
+  C03_wfS'                  `C03_wfS` with `hsafe` replaced by `Safe root0 ∨ coveredF` (see the theorem)
 The old statements (Props/C01Refine.lean, Props/C01.lean, Props/C03.lean) are untouched; under `WFB`/`Safe` they are
 special cases (`push_appends_of_refines`).
 -/
@@ -301,13 +302,13 @@ theorem C01_build_decode' (ext : Ext) (fields : List Field) (rows : List SVal) (
     congr 1
     simp only [hdecr, List.getElem_map, List.getElem_range, Build.rowAt]
 
-/-- **C03 — `C03_wf` with `hsafe` weakened.**  Every array `to_marrow` returns is a well-formed array of its field
-(`Spec.WF`), one array per field, every array of `rows.length` rows — for schemas that are `Safe` (the old theorem) OR
+/-- **C03 — `C03_wfS` with `hsafe` weakened.**  Every array `to_marrow` returns is a well-formed array of its field
+(`Spec.WFS`), one array per field, every array of `rows.length` rows — for schemas that are `Safe` (the old theorem) OR
 `coveredF` (every dictionary has integer keys and Utf8/LargeUtf8 values: then the placeholder keys hidden below a null
 designate the dummy value `""` that `DictionaryUtf8Builder::into_array` appends, `finish` has that branch, and the
 finished dictionary is well formed).  What is still excluded: a schema that is neither — a dictionary with
 NON-nullable keys and a value type other than Utf8/LargeUtf8 below a nullable struct / fixed-size list. -/
-theorem C03_wf' (ext : Ext) (fields : List Field) (rows : List SVal) (arrs : List Arr)
+theorem C03_wfS' (ext : Ext) (fields : List Field) (rows : List SVal) (arrs : List Arr)
     (hschema : ∀ f ∈ fields, Lemmas.C03.SchemaOKF f)
     (hsafe : (∀ root0, newRoot fields = .ok root0 → Safe root0) ∨ fields.all Build.coveredF = true)
     (hext : Lemmas.C03.ExtOK ext)
@@ -315,9 +316,9 @@ theorem C03_wf' (ext : Ext) (fields : List Field) (rows : List SVal) (arrs : Lis
     (h : toMarrow ext fields rows = .ok arrs) :
     arrs.length = fields.length ∧
     ∀ (j : Nat) (f : Field) (a : Arr), fields[j]? = some f → arrs[j]? = some a →
-      WF f a = true ∧ (decodeAll a).length = rows.length := by
+      WFS f a = true ∧ (decodeAll a).length = rows.length := by
   rcases hsafe with hsafe | hcov
-  · exact Props.C03.C03_wf ext fields rows arrs hschema hsafe hext hrows h
+  · exact Props.C03.C03_wfS ext fields rows arrs hschema hsafe hext hrows h
   · have hwfh : ∀ root, runRows ext fields rows = .ok root → WFH root ∧ (dec root).length = rows.length := by
       intro root hrun
       have h0 : ∃ root0, newRoot fields = .ok root0 := by
@@ -413,12 +414,12 @@ example : ∀ arrs, toMarrow {} exUnsafeFields exUnsafeRows = .ok arrs → arrs.
   refine C01_build_decode' {} exUnsafeFields exUnsafeRows arrs ?_ (by decide) (by decide) (Or.inl (by decide)) h
   simp [exUnsafeFields, Lemmas.C03.SchemaOKF, Lemmas.C03.SchemaOK, Lemmas.C03.SchemaOKFs]
 
-/-- … as does `C03_wf'` (through its second alternative) -/
+/-- … as does `C03_wfS'` (through its second alternative) -/
 example : ∀ arrs, toMarrow {} exUnsafeFields exUnsafeRows = .ok arrs → arrs.length = exUnsafeFields.length ∧
     ∀ (j : Nat) (f : Field) (a : Arr), exUnsafeFields[j]? = some f → arrs[j]? = some a →
-      WF f a = true ∧ (decodeAll a).length = exUnsafeRows.length := by
+      WFS f a = true ∧ (decodeAll a).length = exUnsafeRows.length := by
   intro arrs h
-  refine C03_wf' {} exUnsafeFields exUnsafeRows arrs ?_ (Or.inr (by decide)) ?_ ?_ h
+  refine C03_wfS' {} exUnsafeFields exUnsafeRows arrs ?_ (Or.inr (by decide)) ?_ ?_ h
   · simp [exUnsafeFields, Lemmas.C03.SchemaOKF, Lemmas.C03.SchemaOK, Lemmas.C03.SchemaOKFs]
   · exact { date32 := (by intro s v h; cases h), date64 := (by intro s v h; cases h),
             time := (by intro u s v h; cases h), timestamp := (by intro u utc s v h; cases h),
@@ -432,5 +433,57 @@ example : ∀ arrs, toMarrow {} exUnsafeFields exUnsafeRows = .ok arrs → arrs.
 struct column reads null, {d: "a"}, null -/
 example : (do let root ← runRows {} exUnsafeFields exUnsafeRows; pure (decRoot root) : R (List (List LVal))) =
     .ok [[.null, .struct (.cons "d" (.str [97]) .nil), .null]] := by decide +kernel
+
+/-! ### C03 with type equality (round c03f)
+
+`Spec.WF f a = Spec.WFS f a ∧ Spec.typeOf a = f.dataType`: `typeOf` is marrow's `Array::data_type`, written over the
+physical array alone.  `C03_wfS'` above is the structural half (`WFS`, the former `WF`, whose `.union` / `.map` arms do not
+look at the union mode and at the nullability / metadata of the entries field).  The type half: `build_builder` refuses
+sparse unions and nullable Map entries (repo fixes d258f49, 01474fc — `Lemmas.C03.newRoot_strict`), and for such a type a
+structurally valid array has exactly that type (`Lemmas.C03.wf_typeOf`, arbitrary arrays). -/
+
+/-- **C03 (`C03_wf'` for the tightened `Spec.WF`).**  Every array `to_marrow` returns is a structurally valid array WHOSE
+DATA TYPE EQUALS the data type of its field — child names, nullability, metadata, time units and zones, precision / scale,
+sizes, union mode and type ids, the map's sorted flag and entries field, dictionary key / value types — one array per
+field, every array of `rows.length` rows.  Hypotheses: those of `C03_wfS'` plus `hplain`, the exclusion of the KNOWN finding
+C03-map-entries-metadata (metadata on the ENTRIES field of a Map is dropped: marrow's `MapMeta` has no room for it; witness
+`entries_metadata_not_WF` in Props/C03.lean). -/
+theorem C03_wf' (ext : Ext) (fields : List Field) (rows : List SVal) (arrs : List Arr)
+    (hschema : ∀ f ∈ fields, Lemmas.C03.SchemaOKF f)
+    (hplain : ∀ f ∈ fields, Lemmas.C03.PlainF f)
+    (hsafe : (∀ root0, newRoot fields = .ok root0 → Safe root0) ∨ fields.all Build.coveredF = true)
+    (hext : Lemmas.C03.ExtOK ext)
+    (hrows : ∀ x ∈ rows, Lemmas.C03.SValOK x)
+    (h : toMarrow ext fields rows = .ok arrs) :
+    arrs.length = fields.length ∧
+    ∀ (j : Nat) (f : Field) (a : Arr), fields[j]? = some f → arrs[j]? = some a →
+      WF f a = true ∧ (decodeAll a).length = rows.length := by
+  obtain ⟨hlen, hall⟩ := C03_wfS' ext fields rows arrs hschema hsafe hext hrows h
+  have h0 : ∃ root0, newRoot fields = .ok root0 := by
+    simp only [toMarrow, bind, Except.bind] at h
+    cases hr : newRoot fields with
+    | error e => rw [hr] at h; cases h
+    | ok r0 => exact ⟨r0, rfl⟩
+  obtain ⟨root0, h0⟩ := h0
+  have hstrict := Lemmas.C03.newRoot_strict fields root0 h0 hplain
+  refine ⟨hlen, fun j f a hf ha => ?_⟩
+  obtain ⟨hw, hn⟩ := hall j f a hf ha
+  exact ⟨Lemmas.C03.WF_of_WFS f a hw (hstrict f (List.mem_of_getElem? hf)), hn⟩
+
+/-- non-vacuity: the instance above (outside `Safe`), now with the type of every array -/
+example : ∀ arrs, toMarrow {} exUnsafeFields exUnsafeRows = .ok arrs → arrs.length = exUnsafeFields.length ∧
+    ∀ (j : Nat) (f : Field) (a : Arr), exUnsafeFields[j]? = some f → arrs[j]? = some a →
+      WF f a = true ∧ (decodeAll a).length = exUnsafeRows.length := by
+  intro arrs h
+  refine C03_wf' {} exUnsafeFields exUnsafeRows arrs ?_ ?_ (Or.inr (by decide)) ?_ ?_ h
+  · simp [exUnsafeFields, Lemmas.C03.SchemaOKF, Lemmas.C03.SchemaOK, Lemmas.C03.SchemaOKFs]
+  · simp [exUnsafeFields, Lemmas.C03.PlainF, Lemmas.C03.PlainDT, Lemmas.C03.PlainFs]
+  · exact { date32 := (by intro s v h; cases h), date64 := (by intro s v h; cases h),
+            time := (by intro u s v h; cases h), timestamp := (by intro u utc s v h; cases h),
+            duration := (by intro u s v h; cases h) }
+  · intro x hx
+    simp only [exUnsafeRows, List.mem_cons, List.not_mem_nil, or_false] at hx
+    rcases hx with rfl | rfl | rfl <;>
+      simp [Lemmas.C03.SValOK, Lemmas.C03.SFieldsOK, Lemmas.C03.ScalarOK]
 
 end SaModel.Props.C01
